@@ -9,7 +9,7 @@ LETTERS = [(0x41, 0x5A), (0x61, 0x7A)]
 BOUNDS = {
     "quick": "every history of <= 2 adds of hostnames of depth 1..3 (3 adds: total depth <= 4, query depth <= 3) whose labels are single symbolic lower-case letters, "
              "then match on every hostname of depth 1..4 embedded in one of 4 URL forms (bare, http://h/p, h:8080, HTTPS://h/?q#f), len, iteration; "
-             "either-case labels for <= 2 adds of depth <= 2; add-order permutations for total depth <= 4; "
+             "4 three-add histories of depths 3,3,1 / 3,1,3 / 1,3,3 / 3,3,2 (a subtree of two hostnames pruned at once); either-case labels for <= 2 adds of depth <= 2; add-order permutations for total depth <= 4; "
              "3 internationalized labels (Latin with and without a digit in the punycode, Cyrillic), each occurrence spelled in punycode or Unicode (symbolic choice), in 6 add/query shapes with symbolic neighbour labels (two of them with two such labels in one hostname, mixed spellings included)",
     "thorough": "as quick, with 3 adds up to total depth 6 and permutations up to total depth 5",
 }
@@ -100,6 +100,9 @@ def items(tier):
                 form = (sum(depths) + qd + k) % len(FORMS)
                 out.append({"fn": "history", "params": {"depths": list(depths), "qdepth": qd, "form": form},
                             "name": "adds=%s q=%d form=%d" % (list(depths), qd, form), "weight": 3 ** (sum(depths) + qd)})
+    # deep prunes: two hostnames under one direct child of a domain added later (and the other orders)
+    for depths in ([3, 3, 1], [3, 1, 3], [1, 3, 3], [3, 3, 2]):
+        out.append({"fn": "history", "params": {"depths": depths, "qdepth": 2, "form": 1}, "name": "deep prune adds=%s" % depths, "weight": 3 ** 8, "defer_depth": 10})
     # letter case: either case in every label, smaller histories
     for k in range(0, 3):
         for depths in itertools.product(range(1, 3), repeat=k):
